@@ -1,15 +1,19 @@
 (* CorrC02.v — variable expansion: model vs implementation for String reads and Unpack,
    and the substitution specification on the implementation's results (C02, C08). *)
-From Ucfg Require Export Base ParseInt Consts Field Tree PathOps Merge OTree F64 ParseValue VarParse Normalize Flags Ops VarEval Keys KeysDyn.
+From Ucfg Require Export Base ParseInt Consts Field Tree PathOps Merge OTree F64 ParseValue VarParse Normalize Flags Ops VarEval Keys KeysDyn SpecEval.
 
 Inductive xobs := XV (t : otree) | XE (r : ereason) | XPanic | XHang.
+
+Inductive tfield := TStr (k : string) | TList (k : string) (n : nat).
 
 Inductive case :=
 | CRead (o : eopts) (root : value) (name : string) (idx : Z) (observed : obs)   (* Config.String *)
 | CUnpackDyn (o : eopts) (root : value) (observed : xobs)                         (* Unpack into map[string]interface{} *)
 | CFlat (o : eopts) (root : value) (observed : option (list string))             (* FlattenedKeys; None = it did not return *)
-| CExpr (o : nopts) (s : string) (observed : option value).
+| CExpr (o : nopts) (s : string) (observed : option value)
     (* the text s stored as the setting "v": what NewFrom made of it (None = rejected) *)
+| CTyped (o : eopts) (root : value) (fields : list tfield) (observed : xobs).
+    (* Unpack into a struct: a string field per setting, a []string field per literal list *)
 
 (** escapes outside any ${...}: "$$" is a dollar, "$}" a closing brace, a last "$" stays.  A
     specification by itself (it does not use the parser model), for texts without "${" *)
@@ -103,6 +107,24 @@ Fixpoint has_absorber (v : value) : bool :=
   | _ => false
   end.
 
+(* the root unpacked by the specification (SpecEval.reify_s): Some data when every setting has a
+   finite value and no cyclic error was absorbed on the way *)
+Definition spec_unpack_root (o : eopts) (root : value) : option otree :=
+  match root with
+  | VSub d _ =>
+    let fuel := fuel_for o root in
+    (fix gd (l : list (string * (string * value))) (acc : list (string * otree)) : option otree :=
+       match l with
+       | [] => Some (OMap (drop_nils (rev acc)))
+       | (k, (nm, x)) :: r =>
+         match reify_s o fuel fuel {| l_root := root; l_path := nm; l_val := x |} with
+         | Ok (y, false) => gd r ((k, to_otree y) :: acc)
+         | _ => None
+         end
+       end) d []
+  | _ => None
+  end.
+
 Definition xobs_eqb (a b : xobs) : bool :=
   match a, b with
   | XV x, XV y => otree_eqb x y
@@ -126,6 +148,13 @@ Definition model_agrees (c : case) : bool :=
        | _, _ => false
        end
   | CUnpackDyn o root obs =>
+    (* the per-call cache of evaluated references (not modelled) lets the implementation finish
+       some evaluations that walk a second time through a reference whose content is still being
+       unpacked: the data must then be what the specification gives *)
+    match obs, spec_unpack_root o root with
+    | XV t, Some t' => otree_eqb t t'
+    | _, _ => false
+    end ||
     match unpack_root o root with
     | Ok (inl t) => xobs_eqb (XV t) obs
     | Ok (inr es) =>
@@ -149,6 +178,7 @@ Definition model_agrees (c : case) : bool :=
     | OutOfModel, _ => true
     | _, _ => false
     end
+  | CTyped _ _ _ _ => true       (* typed targets with references are outside the Unpack model *)
   end.
 
 Definition skipped (c : case) : bool :=
@@ -157,11 +187,100 @@ Definition skipped (c : case) : bool :=
   | CUnpackDyn o root _ => match unpack_root o root with OutOfModel => true | _ => false end
   | CFlat o root _ => match flattened_keys_dyn o "." (fuel_for o root) root with OutOfModel => true | _ => false end
   | CExpr o s _ => match normalize o (GMap true [(KStr "v", GStr s)]) with OutOfModel => true | _ => false end
+  | CTyped _ _ _ _ => true
+  end.
+
+(* C08 on a String read, judged by the specification (SpecEval.v): a read that never re-enters a
+   reference gives the substituted value; a re-entered one fails (unless absorbed) *)
+Definition any_absorber (o : eopts) (root : value) : bool :=
+  has_absorber root || existsb has_absorber (eo_envs o) || negb (match eo_res o with [] => true | _ => false end).
+
+Definition spec_read_ok (o : eopts) (root : value) (name : string) (idx : Z) (ob : obs) : bool :=
+  match spec_string o (fuel_for o root) root name idx with
+  | Ok (s, false) => obs_eqb ob (OV (VStr s))
+  | Ok (_, true) => match ob with OPanic => false | _ => true end
+  | Err _ _ => match ob with
+               | OE _ _ => true
+               | OV _ => any_absorber o root      (* with the per-call cache a value may survive *)
+               | _ => false
+               end
+  | _ => match ob with OPanic => false | _ => true end
+  end.
+
+(* Unpack into typed fields, by the specification: every field and every list entry is read on
+   its own.  st_ok: the expected data; st_err: some field fails; st_any: a cyclic error was
+   absorbed somewhere (the per-call cache may show) *)
+Inductive styped := STOk (m : list (string * otree)) | STErr | STAny.
+
+Definition spec_typed (o : eopts) (root : value) (fs : list tfield) : styped :=
+  let fuel := fuel_for o root in
+  let rd (k : string) (i : Z) : option (option string) :=      (* None: relaxed; Some None: fails *)
+      match spec_string o fuel root k i with
+      | Ok (s, false) => Some (Some s)
+      | Err _ _ => Some None
+      | _ => None
+      end in
+  (fix go (l : list tfield) (acc : list (string * otree)) : styped :=
+     match l with
+     | [] => STOk (rev acc)
+     | TStr k :: r =>
+       match rd k (-1) with
+       | Some (Some s) => go r ((k, OStr s) :: acc)
+       | Some None => STErr
+       | None => STAny
+       end
+     | TList k n :: r =>
+       match (fix ents (i : nat) (todo : nat) : option (option (list otree)) :=
+                match todo with
+                | O => Some (Some [])
+                | S t => match rd k (Z.of_nat i) with
+                         | Some (Some s) => match ents (S i) t with
+                                            | Some (Some l) => Some (Some (OStr s :: l))
+                                            | x => x end
+                         | Some None => Some None
+                         | None => None
+                         end
+                end) O n with
+       | Some (Some l) => go r ((k, OList l) :: acc)
+       | Some None => STErr
+       | None => STAny
+       end
+     end) fs [].
+
+(* a setting that reads as "null" is left alone by Unpack (the field keeps its zero value) *)
+Fixpoint typed_eqb (spec got : list (string * otree)) : bool :=
+  match spec, got with
+  | [], [] => true
+  | (k, x) :: r, (k2, y) :: r2 =>
+    String.eqb k k2 && typed_eqb r r2 &&
+    match x, y with
+    | OStr "null", _ => true
+    | OList l, OList l2 =>
+      (fix el (a b : list otree) : bool :=
+         match a, b with
+         | [], [] => true
+         | OStr "null" :: a', _ :: b' => el a' b'
+         | u :: a', v :: b' => otree_eqb u v && el a' b'
+         | _, _ => false
+         end) l l2
+    | _, _ => otree_eqb x y
+    end
+  | _, _ => false
   end.
 
 Definition prop_holds (c : case) : bool :=
   match c with
+  | CTyped _ _ _ XPanic | CTyped _ _ _ XHang => false
+  | CTyped o root fs ob =>
+    match spec_typed o root fs, ob with
+    | STOk m, XV (OMap got) => typed_eqb m got
+    | STOk _, _ => false
+    | STErr, XE _ => true
+    | STErr, _ => any_absorber o root
+    | STAny, _ => true
+    end
   | CRead _ _ _ _ OPanic => false
+  | CRead o root name idx ob => spec_read_ok o root name idx ob
   | CUnpackDyn _ _ XPanic | CUnpackDyn _ _ XHang => false
   | CFlat _ _ None => false
   (* a text without "${" is a literal: it reads back with its escapes undone, wherever they stand *)
